@@ -7,5 +7,6 @@ for p in "$@"; do
   out=$(python3 check.py "$p" --tier quick 2>&1 | grep -E "VIOLATION|ok \(" | head -2)
   echo "revert $sha -> $p: $out"
 done
-git -C /repo checkout -- . 
+git -C /repo checkout -- .
 rm -rf /verif/replays
+git -C /verif checkout -- evidence 2>/dev/null   # evidence written against a modified tree is not kept
